@@ -185,6 +185,56 @@ theorem onPublish_perm (c : C) (store : List Sub) (h : TI c.topics store) (p : P
 
 /-! #### `firstPerCb`: one entry per callback -/
 
+/-- the QoS the loop picks is that of one of the callback's entries -/
+theorem maxQos_mem (cb : Nat) (rest : List (Nat × Nat)) : ∀ q : Nat,
+    maxQos cb q rest = q ∨ (cb, maxQos cb q rest) ∈ rest := by
+  induction rest with
+  | nil => intro q; exact Or.inl rfl
+  | cons x rest ih =>
+    intro q
+    simp only [maxQos]
+    by_cases hx : (x.1 == cb && x.2 > q) = true
+    · simp only [hx, ↓reduceIte]
+      have hx1 : x.1 = cb := by
+        simp only [Bool.and_eq_true, beq_iff_eq] at hx; exact hx.1
+      rcases ih x.2 with h | h
+      · right; rw [h, ← hx1]; exact List.mem_cons_self
+      · right; exact List.mem_cons_of_mem _ h
+    · simp only [hx, Bool.false_eq_true, ↓reduceIte]
+      rcases ih q with h | h
+      · exact Or.inl h
+      · exact Or.inr (List.mem_cons_of_mem _ h)
+
+/-- … and it is at least the QoS of every one of them -/
+theorem maxQos_ge (cb : Nat) (rest : List (Nat × Nat)) : ∀ q : Nat,
+    q ≤ maxQos cb q rest ∧ ∀ x ∈ rest, x.1 = cb → x.2 ≤ maxQos cb q rest := by
+  induction rest with
+  | nil => intro q; exact ⟨Nat.le_refl _, fun x hx => by cases hx⟩
+  | cons y rest ih =>
+    intro q
+    simp only [maxQos]
+    by_cases hy : (y.1 == cb && y.2 > q) = true
+    · simp only [hy, ↓reduceIte]
+      have hy2 : y.2 > q := by
+        simp only [Bool.and_eq_true, decide_eq_true_eq] at hy; exact hy.2
+      obtain ⟨h1, h2⟩ := ih y.2
+      refine ⟨by omega, ?_⟩
+      intro x hx hcb
+      rcases List.mem_cons.mp hx with rfl | hx'
+      · exact h1
+      · exact h2 x hx' hcb
+    · simp only [hy, Bool.false_eq_true, ↓reduceIte]
+      obtain ⟨h1, h2⟩ := ih q
+      refine ⟨h1, ?_⟩
+      intro x hx hcb
+      rcases List.mem_cons.mp hx with rfl | hx'
+      · have : ¬ x.2 > q := by
+          intro hgt
+          apply hy
+          simp [hcb, hgt]
+        omega
+      · exact h2 x hx' hcb
+
 theorem firstPerCb_subset (l : List (Nat × Nat)) : ∀ seen, ∀ s ∈ firstPerCb seen l, s ∈ l := by
   induction l with
   | nil => intro seen s hs; simp [firstPerCb] at hs
@@ -194,7 +244,9 @@ theorem firstPerCb_subset (l : List (Nat × Nat)) : ∀ seen, ∀ s ∈ firstPer
     split at hs
     · exact List.mem_cons_of_mem _ (ih seen s hs)
     · rcases List.mem_cons.mp hs with rfl | hs'
-      · exact List.mem_cons_self
+      · rcases maxQos_mem a.1 l a.2 with h | h
+        · rw [h]; exact List.mem_cons_self
+        · exact List.mem_cons_of_mem _ h
       · exact List.mem_cons_of_mem _ (ih _ s hs')
 
 /-- a callback is invoked iff it has an entry and was not seen before -/
@@ -239,6 +291,34 @@ theorem firstPerCb_nodup (l : List (Nat × Nat)) : ∀ seen : List Nat, ((firstP
       rw [mem_firstPerCb_cb]
       rintro ⟨_, h⟩
       exact h (by simp)
+
+/-- the QoS an invoked callback gets is the highest among its entries - whatever their order -/
+theorem firstPerCb_max (l : List (Nat × Nat)) : ∀ (seen : List Nat) (s : Nat × Nat), s ∈ firstPerCb seen l →
+    ∀ x ∈ l, x.1 = s.1 → x.2 ≤ s.2 := by
+  induction l with
+  | nil => intro seen s hs; simp [firstPerCb] at hs
+  | cons a l ih =>
+    intro seen s hs x hx hcb
+    simp only [firstPerCb] at hs
+    by_cases hsn : seen.contains a.1 = true
+    · simp only [hsn, ↓reduceIte] at hs
+      rcases List.mem_cons.mp hx with rfl | hx'
+      · -- `s`'s callback is not in `seen`, `x`'s is: they differ
+        have h1 : s.1 ∈ (firstPerCb seen l).map (·.1) := List.mem_map.mpr ⟨s, hs, rfl⟩
+        rw [mem_firstPerCb_cb] at h1
+        exact absurd (hcb ▸ List.contains_iff_mem.mp hsn) h1.2
+      · exact ih seen s hs x hx' hcb
+    · simp only [hsn, Bool.false_eq_true, ↓reduceIte] at hs
+      rcases List.mem_cons.mp hs with rfl | hs'
+      · obtain ⟨h1, h2⟩ := maxQos_ge a.1 l a.2
+        rcases List.mem_cons.mp hx with rfl | hx'
+        · exact h1
+        · exact h2 x hx' hcb
+      · rcases List.mem_cons.mp hx with rfl | hx'
+        · have h1 : s.1 ∈ (firstPerCb (x.1 :: seen) l).map (·.1) := List.mem_map.mpr ⟨s, hs', rfl⟩
+          rw [mem_firstPerCb_cb] at h1
+          exact absurd (by rw [hcb]; exact List.mem_cons_self) h1.2
+        · exact ih _ s hs' x hx' hcb
 
 theorem length_filter_nodup_key (l : List (Nat × Nat)) (cb : Nat) (hn : (l.map (·.1)).Nodup) :
     (l.filter (fun s => s.1 == cb)).length = if cb ∈ l.map (·.1) then 1 else 0 := by
@@ -391,6 +471,24 @@ theorem deliveries_count (c : C) (store : List Sub) (h : TI c.topics store) (p :
     simp only [specAnswer, List.mem_map] at this
     obtain ⟨e, _, rfl⟩ := this
     exact Nat.min_le_left _ _
+
+/-- which QoS the single invocation carries: the highest `min (message QoS) (granted QoS)` over the
+entries of `cb` whose filter matches - independent of the order the trie walk (a Go map iteration)
+produces them in -/
+theorem deliveries_qos_max (c : C) (store : List Sub) (h : TI c.topics store) (p : Pub) (hg : good p.topic = true)
+    (hn : validName p.topic = true) (hq : p.qos ≤ 2) (cb : Nat) :
+    ∀ m ∈ deliveriesTo cb (onPublish c p), ∀ e ∈ store, e.sub = cb → topicMatches e.filter p.topic = true →
+      min p.qos e.qos ≤ m.qos := by
+  obtain ⟨r, hr, hp⟩ := onPublish_perm c store h p hg hn hq
+  rw [hr, deliveriesTo_map]
+  intro m hm e he hs hmatch
+  simp only [List.mem_map, List.mem_filter, beq_iff_eq] at hm
+  obtain ⟨s, ⟨hsm, hscb⟩, rfl⟩ := hm
+  have hx : (e.sub, min p.qos e.qos) ∈ r := by
+    apply hp.symm.subset
+    simp only [specAnswer, List.mem_map, List.mem_filter]
+    exact ⟨e, ⟨he, hmatch⟩, rfl⟩
+  exact firstPerCb_max r [] s hsm _ hx (by rw [hs, hscb])
 
 /-! ### the SUBACK / UNSUBACK of the oldest request -/
 
